@@ -83,6 +83,9 @@ pub struct Run<'a> {
     /// after the sequence, every one of these operations is tried on a clone of the reader
     /// (push / pop events bracket each branch): edge coverage of the model's state graph
     pub branch_ops: Vec<Value>,
+    /// 0 = never; the source's n-th read call fails once (transient): the call that hits it reports the error, the position is
+    /// unknown afterwards, and the run goes on with an absolute seek
+    pub fault_at: usize,
 }
 
 fn data_event<T: PartialEq + Clone + Into<i64>>(ev: &str, reference: &[T], data: &[T], log_data: bool) -> Value {
@@ -107,6 +110,8 @@ impl Run<'_> {
         let u = self.unit();
         let total_units = self.cfg.frames * u;
         let src = ChunkedReader::new(self.file.bytes.clone(), self.chunks.clone(), self.splits.clone());
+        // the fault is armed after the reader was opened: `fault_at` counts source reads from then on
+        let fault_in = src.fault_in.clone();
         // reference unit sequences
         let ref_bytes: Vec<u8> = match self.fe {
             "byte-le" => samples_to_bytes(self.pcm, self.cfg.bps, false),
@@ -152,6 +157,9 @@ impl Run<'_> {
                 return;
             }
         };
+        if self.fault_at != 0 {
+            fault_in.store(self.fault_at as isize, std::sync::atomic::Ordering::Relaxed);
+        }
         // units exposed by the last fill_buf and not yet consumed (API contract for consume)
         let mut avail: usize = 0;
         let mut alive = true;
@@ -164,6 +172,27 @@ impl Run<'_> {
                 AnyReader::Channel(r) => channel_op(r, name, op, self.pcm, self.cfg.channels as usize, &mut avail, t),
             });
             match r {
+                Ok(true) if !INJECTED.with(|f| f.get()) => {}
+                Ok(_) if INJECTED.with(|f| f.replace(false)) => {
+                    // after the injected fault: an absolute seek (whatever was buffered may be lost), then the history goes on
+                    avail = 0;
+                    let tgt = ((run_id * 37 + self.fault_at * 11) % (self.cfg.frames + 1)) as i64;
+                    let sk = if self.fe.starts_with("byte") { json!({"op": "seekb", "whence": "start", "off": tgt * u as i64}) } else { json!({"op": "seek", "t": tgt}) };
+                    let nm = sk["op"].as_str().unwrap().to_string();
+                    let r2 = catch(|| match &mut reader {
+                        AnyReader::ByteLe(r) => byte_op(r, &nm, &sk, &ref_bytes, self.log_data, &mut avail, t),
+                        AnyReader::ByteBe(r) => byte_op(r, &nm, &sk, &ref_bytes, self.log_data, &mut avail, t),
+                        AnyReader::Sample(r) => sample_op(r, &nm, &sk, self.pcm, self.log_data, &mut avail, t),
+                        AnyReader::Channel(r) => channel_op(r, &nm, &sk, self.pcm, self.cfg.channels as usize, &mut avail, t),
+                    });
+                    if !matches!(r2, Ok(true)) {
+                        if let Err(c) = r2 {
+                            t.emit(panic_event(&nm, &c));
+                        }
+                        alive = false;
+                        break;
+                    }
+                }
                 Ok(true) => {}
                 Ok(false) => {
                     alive = false;
@@ -212,7 +241,23 @@ impl Run<'_> {
     }
 }
 
+thread_local! { static INJECTED: std::cell::Cell<bool> = const { std::cell::Cell::new(false) }; }
+
+/// a refused seek is a verdict of the reader - unless the driver's own source fault caused it
+fn seek_err(mut ev: Value) -> Value {
+    if ev["msg"].as_str().unwrap_or("").contains("injected fault") {
+        INJECTED.with(|f| f.set(true));
+        ev["ret"] = json!("ioerr");
+    }
+    ev
+}
+
 fn err_event(ev: &str, msg: String) -> Value {
+    if msg.contains("injected fault") {
+        // the driver's own transient source fault: not a verdict on the reader, but the position is unknown from here on
+        INJECTED.with(|f| f.set(true));
+        return json!({"ev": ev, "ret": "ioerr", "msg": msg});
+    }
     json!({"ev": ev, "ret": "err", "msg": msg})
 }
 
@@ -285,7 +330,7 @@ fn byte_op<E: Endianness>(
             } else {
                 match r.seek(sf) {
                     Ok(p) => json!({"ev": "seek", "whence": whence, "off": off, "ret": "ok", "rp": p as i64}),
-                    Err(e) => json!({"ev": "seek", "whence": whence, "off": off, "ret": "err", "msg": e.to_string()}),
+                    Err(e) => seek_err(json!({"ev": "seek", "whence": whence, "off": off, "ret": "err", "msg": e.to_string()})),
                 }
             }
         }
@@ -390,7 +435,7 @@ fn sample_op(
             *avail = 0;
             match r.seek(tf) {
                 Ok(()) => json!({"ev": "seek", "whence": "start", "off": tf as i64 * ch, "ret": "ok"}),
-                Err(e) => json!({"ev": "seek", "whence": "start", "off": tf as i64 * ch, "ret": "err", "msg": e.to_string()}),
+                Err(e) => seek_err(json!({"ev": "seek", "whence": "start", "off": tf as i64 * ch, "ret": "err", "msg": e.to_string()})),
             }
         }
         "readall" => {
@@ -555,7 +600,7 @@ fn channel_op(
             *avail = 0;
             match r.seek(tf) {
                 Ok(()) => json!({"ev": "seek", "whence": "start", "off": tf as i64, "ret": "ok"}),
-                Err(e) => json!({"ev": "seek", "whence": "start", "off": tf as i64, "ret": "err", "msg": e.to_string()}),
+                Err(e) => seek_err(json!({"ev": "seek", "whence": "start", "off": tf as i64, "ret": "err", "msg": e.to_string()})),
             }
         }
         _ => json!({"ev": "skip", "why": format!("op {name} not applicable to channel reader")}),
